@@ -59,8 +59,6 @@ func (s *Server) DiscoveryRequest(req *pool.Message, address string, receiverFun
 	if err != nil {
 		return fmt.Errorf("cannot marshal req: %w", err)
 	}
-	s.multicastRequests.Store(token.Hash(), req)
-	defer s.multicastRequests.Delete(token.Hash())
 	if _, loaded := s.multicastHandler.LoadOrStore(token.Hash(), func(w *responsewriter.ResponseWriter[*client.Conn], r *pool.Message) {
 		receiverFunc(w.Conn(), r)
 	}); loaded {
@@ -69,6 +67,9 @@ func (s *Server) DiscoveryRequest(req *pool.Message, address string, receiverFun
 	defer func() {
 		_, _ = s.multicastHandler.LoadAndDelete(token.Hash())
 	}()
+	// only the owner of the token may publish and later remove the request
+	s.multicastRequests.Store(token.Hash(), req)
+	defer s.multicastRequests.Delete(token.Hash())
 
 	if addr.IP.IsMulticast() {
 		err = c.WriteMulticast(req.Context(), addr, data, opts...)
